@@ -92,6 +92,7 @@ def c07_worker(job):
         ubA = {tx: dict(v) for tx, v in pipe.units_by_tx(base.trace).items()}
         validA = seqs(base)
         c07_invalid_series(case, seed, rng, tier, out, base, canon, desc0)
+        c07_stage_faults(case, seed, rng, tier, out, desc0)
         if not units:
             return out
         max_exh = 4 if tier == 'quick' else 6
@@ -184,7 +185,97 @@ def c07_worker(job):
         case.cleanup()
 
 
+def c07_stage_faults(case, seed, rng, tier, out, desc0):
+    """a fault INSIDE the main unit of one transcript — at any of the five stages of the graph
+    algorithm, including the second (novel-ORF) traversal that --coding-novel-orf adds — under
+    --skip-failed: the other units of that transcript and all other transcripts must come out as
+    in the fault-free run."""
+    kw = dict(coding_novel_orf=True)
+    base = gen_ref.run_call_variant(case, tag='sfb', **kw)
+    if base.status != 'ok':
+        out['stats']['stage_baseline_crash'] = 1
+        return
+    struct = pipe.Structure(base)
+    ub = {tx: dict(v) for tx, v in pipe.units_by_tx(base.trace).items()}
+    valid = seqs(base)
+    cands = [tx for tx in struct.txs if any(u.startswith('main:') for u in struct.units.get(tx, []))]
+    if not cands:
+        return
+    # prefer transcripts that have further units (fusion / circRNA) behind the main unit
+    rich = [tx for tx in cands if len(struct.units.get(tx, [])) > 1]
+    picks = (rich or cands)[:]
+    rng.shuffle(picks)
+    # the variant-free graph of call_canonical_peptides (built before the units of a transcript)
+    tx0 = picks[0]
+    run0 = gen_ref.run_call_variant(case, tag='sf0', skip_failed=True, threads=1,
+                                    stage_fail=(tx0, 'canonical:create_cleavage_graph', 1), **kw)
+    out['stats']['canonical_fault_runs'] = out['stats'].get('canonical_fault_runs', 0) + 1
+    if run0.status != 'ok':
+        out['violations'].append((
+            f'--skip-failed run aborted ({run0.status}) when the canonical-peptide call of {tx0} fails',
+            dict(desc0, kind='canonical-call-fault', tx=tx0), CANONICAL_CALL_KEY))
+    for tx in picks[:2 if tier == 'quick' else 4]:
+        mainu = [u for u in struct.units[tx] if u.startswith('main:')][0]
+        for stage, nth in [(rng.choice(gen_ref.STAGES[:4]), 1), ('call_variant_peptides', 1),
+                           ('call_variant_peptides', 2)]:
+            run = gen_ref.run_call_variant(case, tag='sf', skip_failed=True, threads=1,
+                                           stage_fail=(tx, stage, nth), **kw)
+            out['stats']['stage_fault_runs'] = out['stats'].get('stage_fault_runs', 0) + 1
+            desc = dict(desc0, kind='stage-fault', tx=tx, stage=stage, nth=nth, coding_novel_orf=True)
+            if run.status != 'ok':
+                out['violations'].append((
+                    f'--skip-failed run aborted ({run.status}: {run.error[:200]}) when {stage} (call {nth}) '
+                    f'of the main unit of {tx} fails', desc))
+                continue
+            tally = pipe.parse_tally(run.log)
+            # which unit was executing when the fault hit: the one that left no trace
+            ubB = {t2: dict(v) for t2, v in pipe.units_by_tx(run.trace).items()}
+            failed = [u for t2 in struct.txs for u in struct.units.get(t2, [])
+                      if u in ub.get(t2, {}) and u not in ubB.get(t2, {})]
+            if not failed:
+                out['stats']['stage_fault_not_reached'] = out['stats'].get('stage_fault_not_reached', 0) + 1
+                if pairs(run) != pairs(base):
+                    out['violations'].append((
+                        f'no unit failed, yet the output differs from the fault-free run ({stage} call {nth} of {tx})',
+                        desc))
+                continue
+            desc = dict(desc, failed_units=failed)
+            exp_t = [sum(1 for u in failed if u.startswith(k)) for k in ('main:', 'fusion:', 'circ:')]
+            if tally is None or tally[1:4] != exp_t:
+                out['violations'].append((
+                    f'tally of failed units {tally[1:4] if tally else None} != {exp_t} after a fault in {stage} '
+                    f'(call {nth}) of {tx} (units without result: {failed})', desc))
+            expected = set()
+            for t2 in struct.txs:
+                for u in struct.units.get(t2, []):
+                    if u in failed:
+                        continue
+                    for s_, ls in ub.get(t2, {}).get(u, {}).items():
+                        if s_ in valid:
+                            expected.update((s_, strip_idx(l)) for l in ls)
+            got = pairs(run)
+            missing = expected - got
+            extra = got - expected
+            # documented coupling: a circRNA unit of the same transcript is called with a deny-list
+            # that lacks the peptides of a failed main unit
+            ok_extra = set()
+            if mainu in failed:
+                allowed = set(ub.get(tx, {}).get(mainu, {}).keys())
+                for u, pm in ubB.get(tx, {}).items():
+                    if u.startswith('circ:'):
+                        for s_, ls in pm.items():
+                            if s_ in allowed:
+                                ok_extra.update((s_, strip_idx(l)) for l in ls)
+            extra -= ok_extra
+            if missing or extra:
+                out['violations'].append((
+                    f'with --skip-failed and a fault in {stage} (call {nth}) of a unit of {tx} ({failed}), the '
+                    f'output differs from the fault-free output minus that unit: missing {sorted(missing)[:3]} '
+                    f'extra {sorted(extra)[:3]}', desc))
+
+
 INVALID_ACCEPTER_KEY = 'c07-invalid-series-of-fusion-accepter-aborts'
+CANONICAL_CALL_KEY = 'c07-canonical-call-outside-skip-failed'
 
 
 def parse_invalid(log: str) -> Optional[int]:
